@@ -56,15 +56,26 @@ func runC04(c *Ctx) {
 		okRet := true
 		n := 0
 
-		for _, in := range Find(f, ReturnsNilConst(1)) {
-			n++
+		// (evaluated per path by E1: results joined by a helper's return sites are resolved on the path taken,
+		// so a combination that cannot occur — "retry" together with the final return — is not considered)
+		wrong, wit := p.Reach(Entry(f), func(in ssa.Instruction) bool {
+			r, ok := in.(*ssa.Return)
 
-			if !Glob(dNewRes, p.Desc(in.(*ssa.Return).Results[0])) {
-				okRet = false
-			}
+			return ok && ReturnsNilConst(1)(in) && !Glob(dNewRes, p.Desc(r.Results[0]))
+		}, CutSpec{})
+		okRet = !wrong
+
+		if found, _ := p.Reach(Entry(f), func(in ssa.Instruction) bool {
+			r, ok := in.(*ssa.Return)
+
+			return ok && ReturnsNilConst(1)(in) && Glob(dNewRes, p.Desc(r.Results[0]))
+		}, CutSpec{}); found {
+			n = 1
 		}
 
-		c.Check(okRet && n >= 2, "R04.1", FuncName(f)+" :: every success return yields the mutated copy", fpos(f), fmt.Sprintf("%d success returns", n), "a success return yields another object")
+		_ = wit
+
+		c.Check(okRet && n >= 1, "R04.1", FuncName(f)+" :: every success return yields the mutated copy", fpos(f), fmt.Sprintf("%d success returns", n), "a success return yields another object")
 	}
 
 	// ---------- R04.2
